@@ -39,4 +39,108 @@ PROPS = {
          'and both round-trip routes (serde_json::Value, text) are checked bit-exactly on the real crate. non-trivial = tree has an operator/call/array node',
     trusted=['serde_json (built with float_roundtrip) prints and parses the JSON data model faithfully; serde derive implements the documented internally-tagged representation'],
  ),
+ 'C01': dict(
+    modules=['SlacProps.C01'],
+    streams=[
+        dict(name='parsekinds', n=n(4, 5), view='okfull', oracle='none'),
+        dict(name='parse', n=n(40000, 1000000), view='okfull', oracle='none'),
+        dict(name='rt', n=n(60000, 2000000), view='okfull', oracle='none', laws=['same']),
+        dict(name='rr', n=n(40000, 1000000), view='okfull', oracle='none', laws=['same']),
+        dict(name='compile', n=n(40000, 1000000), view='okfull', oracle='none'),
+    ],
+    rule='parsekinds: ALL sequences of <=4 (quick) / <=5 (thorough) tokens over the 23 token kinds; parse: random token lists <=40; '
+         'rt: random source-expressible trees (depth<=4) rendered minimal / fully parenthesised / with random extra parentheses, compiled by the crate and compared bit-exactly; '
+         'rr: accepted random texts re-rendered minimally and recompiled; compile: text -> tree against scan+parse of the model. non-trivial: every case',
+    trusted=['harness renderer (harness/src/lang.rs render) implements the documented precedence table; Unicode tables dumped from Rust std (SlacModel/UnicodeTables.lean)'],
+ ),
+ 'C02': dict(
+    modules=['SlacProps.C02'],
+    streams=[
+        dict(name='scanfrag', n=n(3, 4), view='okfull', oracle='none'),
+        dict(name='scan', n=n(60000, 2000000), view='okfull', oracle='none'),
+        dict(name='lay', n=n(40000, 1000000), view='full', oracle='none', laws=['same']),
+        dict(name='num', n=n(40000, 1000000), oracle='none'),
+    ],
+    rule='scanfrag: ALL sequences of <=3 (quick) / <=4 (thorough) fragments from a 32-fragment alphabet (digits, dot, letters, keywords in mixed case, quotes, braces, //, newline, operators, non-ASCII letter); '
+         'scan: random texts (rendered trees with random layout, fragment soup, decimal renderings of random doubles, quoted Unicode strings, truncations, mutations, random code points); '
+         'lay: token sequence rendered twice with different whitespace/comments/keyword case, both tokenized by the crate and compared bit-exactly; num: str::parse::<f64> against the exact decimal->double model',
+    trusted=[FLOAT_TB, 'Unicode tables dumped from Rust std (SlacModel/UnicodeTables.lean); theorems hold for every CharClass satisfying AsciiOk'],
+ ),
+ 'C05': dict(
+    modules=['SlacProps.C05'],
+    streams=[
+        dict(name='opt', n=n(40000, 1500000), view='opt_c05', oracle='none', laws=['c05']),
+        dict(name='optill', n=n(20000, 500000), view='opt_c05', oracle='none', laws=['c05']),
+    ],
+    rule='opt/optill: random trees (depth<=4) mixing foldable all-literal sub-trees, variables in several spellings, if_then calls with 2-4 arguments, pure and impure functions of all arity kinds, folds that fail midway; '
+         'random environments binding about half of the variables. Compared: status, rewritten tree (also the partial tree of a failed run), execute before/after under the same environment. non-trivial = tree has an operator/call/array node',
+    trusted=[FLOAT_TB],
+    assumptions=['impure test functions are history independent; if_then, where bound, is the standard function'],
+ ),
+ 'C06': dict(
+    modules=['SlacProps.C06'],
+    streams=[
+        dict(name='opt', n=n(40000, 1500000), view='opt_c06', oracle='none', laws=['c06'], case_timeout=20.0),
+        dict(name='optill', n=n(20000, 500000), view='opt_c06', oracle='none', laws=['c06'], case_timeout=20.0),
+    ],
+    rule='same trees as C05 through a recording Environment. Compared: status, tree, the events optimize performed, whether a foldable node is left, re-optimisation, node counts; '
+         'the falsifier inspects the real result structurally (foldable nodes by the property\'s own definition) and checks purity of every recorded event against the registered functions',
+    trusted=[FLOAT_TB],
+ ),
+ 'C07': dict(
+    modules=['SlacProps.C07Parser', 'SlacProps.C07Scanner'],
+    streams=[
+        dict(name='scanfrag', n=n(3, 4), view='class', oracle='none', laws=['no_crash']),
+        dict(name='parsekinds', n=n(4, 5), view='class', oracle='none', laws=['no_crash']),
+        dict(name='compile', n=n(60000, 2000000), view='class', oracle='none', laws=['no_crash']),
+        dict(name='compiledeep', n=n(2000, 20000), view='class', oracle='none', laws=['no_crash']),
+        dict(name='parse', n=n(30000, 1000000), view='class', oracle='none', laws=['no_crash']),
+    ],
+    rule='every run is executed in a worker process: a dead (stack overflow, abort) or hung worker is bisected to the single killing input. '
+         'scanfrag/parsekinds exhaustive small scopes; compile: random texts incl. truncations and single-character mutations of valid scripts, unbalanced delimiters, dangling operators, unterminated strings/comments, arbitrary Unicode; '
+         'compiledeep: nesting up to 64 levels of ( [ f( not - and long operator chains up to 4096 characters. Compared class: ok / err / crash / timeout',
+    trusted=['Rust stack-frame sizes and wall-clock are not expressible in Lean: the depth bound (parse_depth) is proved on the model, the actual stack is observed by the child-process run'],
+ ),
+ 'C10': dict(
+    modules=['SlacProps.C10'],
+    streams=[
+        dict(name='chkvf', n=n(50000, 1500000), view='chk_exec', oracle='none', laws=['c10']),
+        dict(name='opt', n=n(30000, 1000000), view='opt_c10', oracle='none', laws=['c10_opt']),
+        dict(name='env', n=n(20000, 500000), oracle='none', rust_oracle=True),
+    ],
+    rule='chkvf: random trees incl. conditionals and nested calls/arrays with names from a pool that is partly bound, arities at min, max, max+1, 0; verdict, first error with its payload, and the execute result compared; '
+         'opt: acceptance before/after optimize; env: function_exists on every arity kind x argument count against the registration',
+    trusted=[FLOAT_TB],
+ ),
+ 'C11': dict(
+    modules=['SlacProps.C11'],
+    streams=[dict(name='chkbool', n=n(60000, 2000000), view='chkbool', oracle='none', laws=['c11'])],
+    rule='chkbool: random well-/ill-formed trees with conditionals in result position, executed under environments that leave about half of the variables undefined; '
+         'compared: verdict with error payload, execute result, and the proviso (result-position variables/calls yield Booleans)',
+    trusted=[FLOAT_TB],
+ ),
+ 'C13': dict(
+    modules=['SlacProps.C13'],
+    streams=[
+        dict(name='cmp', n=n(60000, 2000000), oracle='none'),
+        dict(name='ord', n=n(60000, 2000000), model=False, oracle='none', laws=['ok']),
+        dict(name='sortlaw', n=n(20000, 400000), model=False, oracle='none', laws=['ok']),
+        dict(name='call:sort,max,min,between,compare', gen='call:sort,max,min,between,compare', n=n(4000, 100000), oracle='none'),
+        dict(name='num', n=n(20000, 500000), oracle='none'),
+    ],
+    rule='cmp: Value::cmp, ==, the six operators on random nested value pairs against the model; ord: all pairwise laws + transitivity + between + compare on random triples, evaluated on the crate; '
+         'sortlaw: sort is a permutation / adjacent-sorted / idempotent, min/max are members and bounds, arrays up to 300 elements; call: builtin results against the model on Safe collections (unsafe ones: crash observation only)',
+    trusted=[FLOAT_TB, 'slice::sort is a stable sort (std); on the Safe domain the stable sorted permutation is unique (Slac.C13.sort_unique)'],
+ ),
+ 'C19': dict(
+    modules=['SlacProps.C19'],
+    streams=[
+        dict(name='envex', n=n(3, 4), oracle='none', rust_oracle=True),
+        dict(name='env', n=n(40000, 1000000), oracle='none', rust_oracle=True),
+        dict(name='eval', n=n(20000, 500000), view='result'),
+    ],
+    rule='envex: ALL histories of <=3 (quick) / <=4 (thorough) operations from a 19-operation alphabet (3 spellings of 2 names x {add/overwrite/remove variable, add/remove function}, clear), every lookup after every step; '
+         'env: random histories up to 200 operations over 20 names incl. non-ASCII; eval: trees with identifiers in random letter case. Falsifier: an independent BTreeMap reference keyed by to_lowercase (harness/src/oracle.rs)',
+    trusted=['str::to_lowercase decides which spellings are the same name (theorems hold for every fold function)'],
+ ),
 }
